@@ -439,10 +439,12 @@ class Resolver:
 
         for n in walk_no_nested(func.node):
             if isinstance(n, ast.Assign):
+                from .exprs import as_aug
+                inc = as_aug(n) is not None      # t = t op v is an increment as well
                 for t in n.targets:
                     for tt in (t.elts if isinstance(t, (ast.Tuple, ast.List)) else [t]):
                         if not isinstance(tt, ast.Name):
-                            record_write(tt, 'assign')
+                            record_write(tt, 'aug' if inc else 'assign')
             elif isinstance(n, ast.AugAssign):
                 if not isinstance(n.target, ast.Name):
                     record_write(n.target, 'aug')
